@@ -151,7 +151,7 @@ def runLex (j : Json) : Except String Json := do
       -- the function the tiling theorem is about; `lexBasic` is cross-checked below
       let r := L.lexAllPieces F all n (n + 1) start
       let sorted := L.sorted all
-      pure (emitted r.1, if r.2.2 then some (LexErr.chars r.2.1 ((L.scanList sorted).filter (fun t => !L.ignore.contains t))) else none)
+      pure (emitted r.1, if r.2.2 then some (LexErr.chars r.2.1 (sorted.filter (fun t => !L.ignore.contains t))) else none)
     else do
       let subsets ← (← getArr j "subsets").mapM natListOf
       pure (L.lexCtx F all n subsets start)
